@@ -782,7 +782,8 @@ def py_str(x=""):
             return x
         if z3.is_int(x.t):
             return V(z3.IntToStr(x.t), x.axes)
-        raise Undecided("str() of a symbolic real")
+        # the decimal text of a real number is not modelled: an opaque string (only used in messages)
+        return V(z3.String(fresh_name("str_of_number")), x.axes)
     return str(x)
 
 
